@@ -212,6 +212,19 @@ def source_reading(ctx):
     if all(o[1] for o in obs):
         ok, log = coqrun.compile_lemma_file(ctx.bdir, "Gen_C13_src", arch_reader.coq_file(info))
         ctx.obligation("Gen_C13_src: equality / hash look at the model's tables (compiled)", ok, log[-400:])
+    # the three methods with a body worth translating: the index loop, the look-up, the bounding box (harness/gen/arch_translate.py)
+    from gen import arch_translate
+    name = "arch.py: Layout.__post_init__ / get_zone_id / bounding_box are inside the translated fragment (generated model Gen_C13_fun_src.v)"
+    try:
+        body = arch_translate.generate(os.path.join(paths.REPO, "src/bloqade/shuttle/arch.py"))
+    except Exception as e:
+        ctx.obligation(name, False, f"{type(e).__name__}: {e}"[:300])
+        return
+    ctx.obligation(name, True)
+    ok, log = coqrun.compile_lemma_file(ctx.bdir, "Gen_C13_fun_src", body, timeout=300)
+    ctx.obligation("the translated index loop, look-up and bounding box (sentinel form) equal Model.Arch's build_index / get_zone_id / bounding_box for "
+                   "every layout (build_index_src_eq, bounding_box_src_eq), closed under the global context",
+                   ok and log.count("Closed under the global context") >= 2, log[-600:])
 
 
 def filled_zone_layouts(ctx):
